@@ -3762,7 +3762,9 @@ impl LineBuf {
 					MotionKind::LineRange(_,e) => e,
 					_ => self.cursor_line_number()
 				};
-				let (_,insert_pos) = self.line_bounds(insert_line).unwrap();
+				let Some((_,insert_pos)) = self.line_bounds(insert_line) else {
+					return Err(format!("Invalid range: there is no line {}", insert_line + 1))
+				};
 				let needs_newline = self.grapheme_at(insert_pos) != Some("\n");
 
 				let data = match src {
